@@ -125,10 +125,10 @@ def run(prop, args):
             rep.add_violation(b, w, d, kind=k)
         return rep.finish()
     tier = args.tier
-    NB = 18 if tier == "quick" else 26
+    NB = 18 if tier == "quick" else 40
     jobs = [(n, tr, s) for n in range(1, NB + 1) for tr in ("maximum", "revolve") for s in range(0 if n == 1 else 1, n + 2)]
     nbox = len(jobs)
-    jobs += _gen((tier, args.seed, 60 if tier == "quick" else 500))
+    jobs += _gen((tier, args.seed, 60 if tier == "quick" else 1500))
     res = R.pmap(_group, jobs, chunksize=2)
     rep.exhaustive = [{"box": "n<=%d, both trajectories, every total s in 1..n+1, every split of s" % NB, "cases": nbox, "exhaustive": True}]
     rep.extra["groups"] = len(jobs)
